@@ -263,6 +263,7 @@ def instantiate(qf, univ, goal, rounds=2, extra_terms=(), budget=60000, sum_fram
     total = 0
     sums_done = set()
     triggers = {}
+    chain_pats = {}
     usage_acc = {'sel': {}, 'apps': {}, 'seen': set(), 'appseen': set(), 'symcache': {}}
     new_exprs = ground + [goal] + list(extra_terms)
     for rnd in range(rounds + 1):
@@ -332,6 +333,18 @@ def instantiate(qf, univ, goal, rounds=2, extra_terms=(), budget=60000, sum_fram
                     combos = [tuple([t] * len(vars_)) for t in per_var[0]] if len(set(map(len, per_var))) == 1 else []
                 else:
                     combos = list(itertools.product(*per_var))
+                if len(vars_) >= 2:
+                    # nested-list hypotheses: bind all variables at once from a ground chain A[i][j](..) over the same list
+                    if ui not in chain_pats:
+                        chain_pats[ui] = _chain_patterns(vars_, body, usage_acc.setdefault('symcache', {}))
+                    for syms, pos in chain_pats[ui]:
+                        for gsyms, gidx in (usage.get('chains', {}).get(len(pos)) or {}).values():
+                            if 'unk' in syms or 'unk' in gsyms or (syms & gsyms):
+                                combo = [None] * len(vars_)
+                                for lvl, pv in enumerate(pos):
+                                    if pv is not None:
+                                        combo[pv] = gidx[lvl]
+                                combos.append(tuple(combo))
             for combo in combos:
                 key = (ui,) + tuple(t.get_id() for t in combo)
                 if key in done:
@@ -367,6 +380,36 @@ def _find_trigger(vars_, body):
     for e in _atoms_of(body):
         _walk(e, seen, visit)
     return found or None
+
+
+def _chain_patterns(vars_, body, cache):
+    """select chains  A[t1]..[tk]  (k = 2, 3) of the body in which every bound variable occurs as a bare index:
+    -> list of (symbols of A, [level -> position of the variable in vars_ or None])"""
+    ids = [v.get_id() for v in vars_]
+    out, seen_pat = [], set()
+
+    def visit(x):
+        if not (z3.is_app(x) and x.decl().kind() == z3.Z3_OP_SELECT):
+            return
+        idxs, a = [], x
+        while z3.is_app(a) and a.decl().kind() == z3.Z3_OP_SELECT and len(idxs) < 3:
+            idxs.append(a.arg(1))
+            a = a.arg(0)
+        idxs.reverse()
+        if len(idxs) < 2:
+            return
+        pos = [ids.index(i.get_id()) if i.get_id() in ids else None for i in idxs]
+        if set(p_ for p_ in pos if p_ is not None) != set(range(len(ids))):
+            return
+        syms = frozenset(_array_symbols(a, cache) or {'unk'})
+        key = (syms, tuple(pos))
+        if key not in seen_pat:
+            seen_pat.add(key)
+            out.append((syms, pos))
+    seen = set()
+    for e in _atoms_of(body):
+        _walk(e, seen, visit)
+    return out
 
 
 def _atoms_of(tree):
@@ -420,10 +463,23 @@ def term_usage(exprs, bound_ids, acc=None):
     sel, apps = acc['sel'], acc['apps']
     seen = acc['seen']
 
+    chains = acc.setdefault('chains', {})
+
     def visit(x):
         if not z3.is_app(x):
             return
         kd = x.decl().kind()
+        if kd == z3.Z3_OP_SELECT and z3.is_app(x.arg(0)) and x.arg(0).decl().kind() == z3.Z3_OP_SELECT \
+                and not _mentions(x, bound_ids):
+            # ground chain  A[i1][i2](...)[ik]  of nested lists (depth 2 or 3): candidates for multi-variable hypotheses
+            idxs, a = [], x
+            while z3.is_app(a) and a.decl().kind() == z3.Z3_OP_SELECT and len(idxs) < 3:
+                idxs.append(a.arg(1))
+                a = a.arg(0)
+            idxs.reverse()
+            if all(i.sort() == I for i in idxs):
+                syms = _array_symbols(a, acc.setdefault('symcache', {})) or {'unk'}
+                chains.setdefault(len(idxs), {})[tuple(i.get_id() for i in idxs)] = (frozenset(syms), tuple(idxs))
         if kd in (z3.Z3_OP_SELECT, z3.Z3_OP_STORE):
             idx = x.arg(1)
             if idx.sort() == I and not _mentions(idx, bound_ids):
